@@ -45,6 +45,8 @@ def build_stage(st):
     cfg = None
     if st.get("cfg") == "cmake":
         cfg = build.cmake_cfg(tuple(st.get("cmake_args", ())), tag="cmakecfg" + st.get("cfgtag", ""))
+    elif st.get("cfg") == "autotools":
+        cfg = build.autotools_cfg(tuple(st.get("configure_args", ())), tag="autotoolscfg" + st.get("cfgtag", ""))
     return build.harness(st["variant"], st["name"], st["srcs"], wraps=st.get("wraps", ()),
                          libs=st.get("libs", ("-lgnutls",)), defines=st.get("defines", ()),
                          extra_cflags=st.get("cflags", ()), lib_cflags=st.get("lib_cflags", ()),
